@@ -223,7 +223,7 @@ def run(rep, tier):
     c01.run_array(rep, tier)
     # layout conversion is one of the history's operations: buffer size and recorded element count must agree there too
     c05.declare(rep)
-    for r in ("C05.a", "C05.cuda"):
+    for r in ("C05.f", "C05.a", "C05.cuda"):
         rep.rules.pop(r, None)
     c05.run_conversions(rep, "quick")
     return hs
